@@ -96,8 +96,15 @@ func opFile(st *state, args []string) []string {
 		return []string{resErr(err)}
 	}
 	msg := func(i int) []byte {
-		sizes := []int{1, 17, 100, 1000, 5000, 20000, 3, 250}
-		return []byte(fmt.Sprintf("<%d:%s>", i, strings.Repeat(string(rune('a'+i%26)), sizes[i%len(sizes)])))
+		// total message lengths include buffer-size boundaries (and their neighbours) besides ordinary sizes
+		totals := []int{5, 17, 4096, 100, 4097, 1000, 4095, 20000, 8192, 250, 1024, 16384, 65536, 32768}
+		total := totals[(i+fileRunSeq)%len(totals)]
+		head := fmt.Sprintf("<%d:", i)
+		fill := total - len(head) - 1
+		if fill < 0 {
+			fill = 0
+		}
+		return []byte(head + strings.Repeat(string(rune('a'+i%26)), fill) + ">")
 	}
 	done := make([]chan error, n)
 	started := make([]bool, n)
